@@ -190,6 +190,19 @@ pub struct Workload {
     pub faults: Vec<Fault>,
     /// capacity used for the hashing queue (16 = shipped constant).
     pub hashq_cap: usize,
+    /// (C10, multi-thread slice) a call made on the same simulated main thread before this one.
+    #[serde(default, skip_serializing_if = "Option::is_none")]
+    pub pre: Option<Box<PreCall>>,
+}
+
+#[derive(Serialize, Deserialize, Clone, Debug, PartialEq)]
+pub struct PreCall {
+    pub w: Workload,
+    /// the earlier call runs in multi-thread mode
+    pub par: bool,
+    /// the observed (last) call runs in single-thread mode instead of multi-thread mode
+    pub last_single: bool,
+    pub derived: String,
 }
 
 #[derive(Clone, Debug, PartialEq)]
@@ -403,6 +416,7 @@ pub fn gen(purpose: Purpose, tier: Tier, seed: u64, index: u64) -> Workload {
         read_seed: r.next_u64(),
         faults: vec![],
         hashq_cap: *r.pick(&[16usize, 16, 1, 2, 4]),
+        pre: None,
     };
     // A small Rice-parameter cap on loud wide samples makes the library build
     // multi-megabyte unary runs per frame (slow, memory hungry) without adding
@@ -474,7 +488,7 @@ pub fn gen(purpose: Purpose, tier: Tier, seed: u64, index: u64) -> Workload {
     w
 }
 
-fn gen_out_of_range(r: &mut Rng, w: &Workload, k: usize) -> Fault {
+pub fn gen_out_of_range(r: &mut Rng, w: &Workload, k: usize) -> Fault {
     let reads = w.plan_reads();
     let len = reads.get(k).map_or(1, |p| p.len).max(1);
     let half: i64 = 1i64 << (w.bits - 1);
@@ -519,3 +533,209 @@ fn gen_fault(r: &mut Rng, w: &Workload, nreads: usize) -> Fault {
         gen_out_of_range(r, w, k)
     }
 }
+
+// ---------------------------------------------------------------------------------------------
+// small workloads and "neighbouring" argument changes (call histories, C10)
+// ---------------------------------------------------------------------------------------------
+
+const SMALL_BLOCKS: &[usize] = &[32, 33, 40, 48, 64, 65, 100, 128, 192, 255, 256, 257];
+
+pub fn tame(w: &mut Workload) {
+    // keep the work per call small and avoid multi-megabyte unary runs (see workload.rs)
+    if w.cfg.rice_max + 8 < w.bits && w.sig_kinds.iter().any(|k| !matches!(k, 0 | 1 | 3)) {
+        if w.bits <= 12 {
+            // small widths: a low cap is affordable
+        } else {
+            for k in &mut w.sig_kinds {
+                if !matches!(*k, 0 | 1 | 3) {
+                    *k = 3;
+                }
+            }
+        }
+    }
+    while w.block * w.channels * (w.nfull + 1) > 6000 && w.nfull > 1 {
+        w.nfull -= 1;
+    }
+    if w.block * w.channels > 2100 {
+        w.block = 128;
+    }
+    w.residue = w.residue.min(w.block - 1);
+    w.sig_kinds.resize(w.channels, 3);
+    let nreads = w.plan_reads().len();
+    w.faults.retain(|f| f.k() <= nreads);
+}
+
+pub fn fresh_small(r: &mut Rng) -> Workload {
+    let channels = if r.chance(0.4) { 2 } else { 1 + r.below(8) };
+    let bits = *r.pick(BITS);
+    let block = *r.pick(SMALL_BLOCKS);
+    let nfull = match r.below(8) {
+        0 => 0,
+        1..=4 => 1,
+        5 | 6 => 2,
+        _ => 3,
+    };
+    let residue = *r.pick(&[0usize, 0, 1, 17, 31, block - 1]);
+    let sig_kinds: Vec<u8> = (0..channels).map(|_| r.below(12) as u8).collect();
+    let mut w = Workload {
+        channels,
+        bits,
+        rate: *r.pick(RATES),
+        block,
+        nfull,
+        residue,
+        sig_kinds,
+        sig_seed: r.next_u64(),
+        cfg: CfgSpec::random(r),
+        workers: None,
+        env_workers: None,
+        len_hint: r.chance(0.5),
+        delivery: r.below(3) as u8,
+        short_reads: r.chance(0.05),
+        eof_style: u8::from(r.chance(0.3)),
+        read_seed: r.next_u64(),
+        faults: vec![],
+        hashq_cap: 16,
+        pre: None,
+    };
+    if w.nfull == 0 && w.residue == 0 && r.chance(0.7) {
+        w.residue = 1 + r.below(w.block - 1);
+    }
+    tame(&mut w);
+    w
+}
+
+/// One "neighbouring" change of the arguments of an earlier call.
+pub fn neighbour(w0: &Workload, r: &mut Rng) -> (Workload, String) {
+    let mut w = w0.clone();
+    w.faults.clear();
+    let tag = match r.below(20) {
+        0 | 1 => {
+            // shrink or grow the block size
+            let smaller: Vec<usize> = SMALL_BLOCKS.iter().copied().filter(|b| *b < w.block).collect();
+            let larger: Vec<usize> = SMALL_BLOCKS.iter().copied().filter(|b| *b > w.block).collect();
+            let (pool, t) = if (r.chance(0.5) && !smaller.is_empty()) || larger.is_empty() { (smaller, "block_smaller") } else { (larger, "block_larger") };
+            if pool.is_empty() {
+                "same"
+            } else {
+                w.block = *r.pick(&pool);
+                t
+            }
+        }
+        2 | 3 => {
+            let old = w.channels;
+            w.channels = *r.pick(&[1usize, 2, 2, 3, 5, 8]);
+            let seed = r.next_u64();
+            let mut rr = Rng::new(seed);
+            w.sig_kinds = (0..w.channels).map(|i| w0.sig_kinds.get(i).copied().unwrap_or_else(|| rr.below(12) as u8)).collect();
+            if w.channels == old {
+                "same"
+            } else if w.channels < old {
+                "channels_fewer"
+            } else {
+                "channels_more"
+            }
+        }
+        4 | 5 => {
+            let old = w.bits;
+            w.bits = *r.pick(BITS);
+            if w.bits == old {
+                "same"
+            } else if w.bits < old {
+                "bits_narrower"
+            } else {
+                "bits_wider"
+            }
+        }
+        6 => {
+            w.cfg.rice_max = if w.cfg.rice_max >= 7 { *r.pick(&[0usize, 1, 2]) } else { 14 };
+            "rice_max_flip"
+        }
+        7 => {
+            w.cfg.fixed_max_order = if w.cfg.fixed_max_order >= 2 { 0 } else { 4 };
+            "fixed_order_flip"
+        }
+        8 | 9 | 10 => {
+            // Tukey parameters that differ by a few ulp (less than 2^-16)
+            let base = match w.cfg.tukey_alpha_bits {
+                Some(b) => f32::from_bits(b),
+                None => 0.1 + 0.8 * r.f32_unit(),
+            };
+            let d = 1 + r.below(300) as u32;
+            let nb = if r.chance(0.5) { base.to_bits().wrapping_add(d) } else { base.to_bits().wrapping_sub(d) };
+            let a = f32::from_bits(nb);
+            if a.is_finite() && (0.0..=1.0).contains(&a) {
+                w.cfg.tukey_alpha_bits = Some(nb);
+                w.cfg.use_lpc = true;
+                "alpha_ulp"
+            } else {
+                "same"
+            }
+        }
+        11 => {
+            w.cfg.tukey_alpha_bits = match w.cfg.tukey_alpha_bits {
+                Some(_) if r.chance(0.5) => None,
+                _ => Some((r.f32_unit()).to_bits()),
+            };
+            "window_other"
+        }
+        12 => {
+            w.cfg.lpc_order = *r.pick(&[1usize, 2, 8, 12, 24]);
+            w.cfg.precision = *r.pick(&[1usize, 5, 12, 15]);
+            "lpc_order_precision"
+        }
+        13 => {
+            match r.below(6) {
+                0 => w.cfg.use_lpc = !w.cfg.use_lpc,
+                1 => w.cfg.use_fixed = !w.cfg.use_fixed,
+                2 => w.cfg.use_constant = !w.cfg.use_constant,
+                3 => w.cfg.use_midside = !w.cfg.use_midside,
+                4 => w.cfg.use_leftside = !w.cfg.use_leftside,
+                _ => w.cfg.use_rightside = !w.cfg.use_rightside,
+            }
+            "switch_toggle"
+        }
+        14 => {
+            w.nfull = *r.pick(&[0usize, 1, 2, 3]);
+            w.residue = *r.pick(&[0usize, 1, 17, w.block - 1]);
+            "length"
+        }
+        15 => {
+            w.sig_seed = r.next_u64();
+            "signal_seed"
+        }
+        16 => {
+            w.cfg.approx_ent_partitions = match w.cfg.approx_ent_partitions {
+                None => Some(*r.pick(&[1usize, 2, 8, 64])),
+                Some(_) => None,
+            };
+            "order_selection"
+        }
+        17 => {
+            w.delivery = (w.delivery + 1 + r.below(2) as u8) % 3;
+            "delivery"
+        }
+        18 => {
+            // the same call, but the source fails part-way (state after an error return)
+            let nreads = w.plan_reads().len();
+            if nreads == 0 {
+                "same"
+            } else if r.chance(0.5) {
+                w.faults.push(Fault::ReadError {
+                    k: r.below(nreads + 1),
+                    after_fill: r.chance(0.3),
+                    reason: r.below(6) as u8,
+                });
+                "source_fails"
+            } else {
+                let k = r.below(nreads);
+                w.faults.push(gen_out_of_range(r, &w, k));
+                "sample_out_of_range"
+            }
+        }
+        _ => "same",
+    };
+    tame(&mut w);
+    (w, tag.to_owned())
+}
+
